@@ -118,49 +118,83 @@ def r15_2(run, model, mir, reach):
     run.floor("fields scanned for body types", n, 30)
 
 
+def _eq_tags(run, rel, n):
+    l = S.norm_ws(run.facts.text(rel, n["left"]["sp"]))
+    r = S.norm_ws(run.facts.text(rel, n["right"]["sp"]))
+    pair = {l, r}
+    both = l + " " + r
+    tags = set()
+    if "FORMAT_VERSION" in both and any(x.endswith("format_version") for x in pair):
+        tags.add("format_version==FORMAT_VERSION")
+    if "COMPILER_ABI" in both and any(x.endswith("compiler_abi") for x in pair):
+        tags.add("compiler_abi==COMPILER_ABI")
+    if any(x.endswith("interface_hash") for x in pair) and "compute_hash()" in both:
+        tags.add("interface_hash==compute_hash()")
+    if any(x.endswith(".package") or x == "package" for x in pair) and "interface.package" in both:
+        tags.add("package==interface.package")
+    if any(x.endswith("deps") for x in pair) and "interface.deps" in both:
+        tags.add("deps==interface.deps")
+    return tags
+
+
+def facts(run, model, rel, e, self_ty, depth, seen):
+    """(facts guaranteed when e is true, facts guaranteed when e is false); conjunction/disjunction/negation aware, so
+    `h.is_empty() || h == compute_hash()` establishes nothing when true"""
+    k = e["k"]
+    if k == "Paren":
+        return facts(run, model, rel, e["expr"], self_ty, depth, seen)
+    if k == "Unary" and e.get("op") == "!":
+        t, f_ = facts(run, model, rel, e["expr"], self_ty, depth, seen)
+        return f_, t
+    if k == "Binary":
+        if e["op"] == "==":
+            return _eq_tags(run, rel, e), set()
+        if e["op"] == "!=":
+            return set(), _eq_tags(run, rel, e)
+        if e["op"] in ("&&", "||"):
+            lt, lf = facts(run, model, rel, e["left"], self_ty, depth, seen)
+            rt, rf = facts(run, model, rel, e["right"], self_ty, depth, seen)
+            return (lt | rt, lf & rf) if e["op"] == "&&" else (lt & rt, lf | rf)
+        return set(), set()
+    if k == "MethodCall" and (e["method"] in ("validate", "validate_hash", "validate_versions", "is_valid", "check") or e["method"].startswith("validate")):
+        recv = S.norm_ws(run.facts.text(rel, e["recv"]["sp"]))
+        if recv.endswith("interface"):
+            targets = ["InterfaceUnit"]
+        elif recv == "self" and self_ty:
+            targets = [self_ty]
+        else:
+            targets = ["InterfaceUnit", "CoreUnit"]
+        tags = set()
+        for t in targets:
+            for cand in model.find_fns(e["method"], None, impl=t):
+                tags |= collect_checks(run, model, cand, depth + 1, seen)
+        return tags, set()
+    return set(), set()
+
+
 def collect_checks(run, model, fninfo, depth=0, seen=None):
-    """facts established by a boolean validation method: set of tags"""
+    """facts established when a boolean validation method returns true: its tail expression's true-facts plus the false-facts of
+    every `if c { return false }` before it"""
     seen = seen or set()
     tags = set()
     if fninfo is None or fninfo.body is None or fninfo.qual in seen or depth > 3:
         return tags
     seen.add(fninfo.qual)
-    return facts_in_expr(run, model, fninfo.file, fninfo.body, fninfo.impl, depth, seen)
+    body = fninfo.body
+    stmts = body["stmts"]
+    for st in stmts:
+        e = st.get("expr") if st["k"] == "ExprStmt" else None
+        if e is not None and e["k"] == "If" and any(r.get("expr") is not None and S.norm_ws(run.facts.text(fninfo.file, r["expr"]["sp"])) == "false"
+                                                      for r in S.find(e["then"], "Return")):
+            tags |= facts(run, model, fninfo.file, e["cond"], fninfo.impl, depth, seen)[1]
+    if stmts and stmts[-1]["k"] == "ExprStmt" and not stmts[-1].get("semi"):
+        tags |= facts(run, model, fninfo.file, stmts[-1]["expr"], fninfo.impl, depth, seen)[0]
+    return tags
 
 
 def facts_in_expr(run, model, rel, expr, self_ty, depth, seen):
-    tags = set()
-    for n in S.walk(expr):
-        if n["k"] == "Binary" and n["op"] in ("==", "!="):
-            l = S.norm_ws(run.facts.text(rel, n["left"]["sp"]))
-            r = S.norm_ws(run.facts.text(rel, n["right"]["sp"]))
-            pair = {l, r}
-            both = l + " " + r
-            if "FORMAT_VERSION" in both and any(x.endswith("format_version") for x in pair):
-                tags.add("format_version==FORMAT_VERSION")
-            if "COMPILER_ABI" in both and any(x.endswith("compiler_abi") for x in pair):
-                tags.add("compiler_abi==COMPILER_ABI")
-            if any(x.endswith("interface_hash") for x in pair) and "compute_hash()" in both:
-                tags.add("interface_hash==compute_hash()")
-            if any(x.endswith(".package") or x == "package" for x in pair) and "interface.package" in both:
-                tags.add("package==interface.package")
-            if any(x.endswith("deps") for x in pair) and "interface.deps" in both:
-                tags.add("deps==interface.deps")
-        elif n["k"] == "MethodCall" and n["method"] in ("validate", "validate_hash", "validate_versions", "is_valid", "check") or \
-                (n["k"] == "MethodCall" and n["method"].startswith("validate")):
-            # resolve the method: on self.interface -> InterfaceUnit, on self -> self_ty
-            recv = S.norm_ws(run.facts.text(rel, n["recv"]["sp"]))
-            targets = []
-            if recv.endswith("interface"):
-                targets = ["InterfaceUnit"]
-            elif recv == "self" and self_ty:
-                targets = [self_ty]
-            else:
-                targets = ["InterfaceUnit", "CoreUnit"]
-            for t in targets:
-                for cand in model.find_fns(n["method"], None, impl=t):
-                    tags |= collect_checks(run, model, cand, depth + 1, seen)
-    return tags
+    """facts established when a *rejecting* condition is false (the path that continues)"""
+    return facts(run, model, rel, expr, self_ty, depth, seen)[1]
 
 
 def r15_3(run, model, mir):
@@ -212,8 +246,7 @@ def r15_3(run, model, mir):
             # the condition must be a *negated* validation or an inequality against the constants
             sub = facts_in_expr(run, model, rel, iff["cond"], ty, 0, set())
             # polarity: `!x.validate()` or `a != CONST`; a positive `x.validate()` guarding a return Err would be inverted logic
-            neg_ok = cond_txt.startswith("!") or "!=" in cond_txt
-            if neg_ok:
+            if sub:
                 rejecting += 1
                 tags |= sub
         missing = sorted(need_all - tags)
